@@ -739,6 +739,8 @@ static void run_ops(Ctx& c, const J& ops, int base_index, const char* tag, int c
         if (cs >= 0) ret.set("cs", cs);
         for (auto& kv : r.o) ret.set(kv.first, kv.second);
         ret.set("edges", (long)(c.t->edges - e0)); ret.set("ny", (long)c.t->yord);
+        if (!c.t->ymutex.empty() && R.tasks.size() > 1) { J ym = J::arr(); for (int y_ : c.t->ymutex) ym.push((long)y_); ret.set("ym", ym); }
+        if (c.t->wmax_nth >= 0) { J wm = J::arr(); wm.push((long)c.t->wmax_nth); wm.push(c.t->wmax_size); ret.set("wmax", wm); }
         if (!c.t->fs_nth.empty()) { J fsn = J::obj(); for (auto& kv : c.t->fs_nth) fsn.set(kv.first, (long)kv.second); ret.set("fsn", fsn); }   // file operations of this op by kind (fault placement, DESIGN 2.5)
         hist_event(ret);
         if (is_crash_victim) { crash_pending = true; g_fs.snaps.swap(g_victim_snaps); }
